@@ -42,6 +42,8 @@ def plan(tier, seed):
         jobs.append({"name": "fresh%02d" % i, "spec": {"kind": "fresh", "n": 1500 if q else 20000, "ecc": 300 if q else 6000}})
     for i in range(4 if q else NSH):
         jobs.append({"name": "splice%02d" % i, "spec": {"kind": "splice", "n": 100 if q else 3000, "i": i}})
+    for i in range(2 if q else 8):
+        jobs.append({"name": "threads%02d" % i, "spec": {"kind": "threads", "rounds": 3 if q else 40}})
     return jobs
 
 
@@ -49,7 +51,7 @@ def mandatory_bins(tier):
     b = ["blocks_" + "+".join(l) for l in GB.all_block_lists()]
     b += ["session_key_drawn", "all_blocks_wrap_the_mac_key", "pass_through_rewrite", "rewrite_known_blocks_same_key", "creations_without_key", "counting_rng",
           "ecc_wrap", "ecc_rewrite_same_object", "ephemeral_points_distinct", "splice_accepted_when_keys_equal", "splice_body_under_first_key", "splice_body_under_second_key", "splice_triple", "splice_partial_decryptor_set", "splice_unopened_block_between", "read_with_encrypt_only_ecc_encryptor", "content_of_a_read_file_rewritten_under_a_fresh_key", "encrypted_component_under_the_wrapped_key", "foreign_blocks_of_unknown_kind"]
-    b += ["splice_%s_%s" % (a, c) for a in GB.KINDS for c in GB.KINDS] + ["splice_two_ecc_blocks_for_two_selectors", "splice_block_wraps_a_prefix_of_the_key"]
+    b += ["splice_%s_%s" % (a, c) for a in GB.KINDS for c in GB.KINDS] + ["splice_two_ecc_blocks_for_two_selectors", "splice_block_wraps_a_prefix_of_the_key", "files_written_by_concurrent_threads"]
     return b
 
 
@@ -472,9 +474,62 @@ def run_splice(ns, ctx, spec):
             ctx.sample({"kind": "splice", "blocks": list(kinds), "odd_block": odd})
 
 
+def run_threads(ns, ctx, spec):
+    """files with an ECC block and an update / customer-key block written by several threads at the same time (line-level
+    interleaving inside the writer, the crypto plug-in's key classes and the ECC encryptor): in every file all blocks must wrap
+    the key that authenticates its directory"""
+    from ..sched import yieldrun
+
+    B = ns.bec2file
+    rng = ctx.rng
+    codes = yieldrun.code_objects_of(ns.plugin.PrivateEccKeyProxy, ns.plugin.PublicEccKeyProxy, B.EccEncryptor, B.EccDecryptor, B.InitEccAuthBlock, B.Bec2File, B.UpdateAuthBlock, B.AesEncryptorMixin)
+    total = 0
+    for rnd in range(spec["rounds"]):
+        nthreads = (2, 3)[rnd % 2]
+        all_specs = [GB.gen_blocks(rng, rng.choice((("ecc", "update"), ("update", "ecc"), ("ecc", "cust"), ("ecc",)))) for _ in range(nthreads)]
+        keys = [rng.randbytes(16) for _ in range(nthreads)]
+        cases = [G.gen_case(rng, ncomp=1) for _ in range(nthreads)]
+
+        def body(i):
+            def run():
+                f = B.Bec2File(G.build_real(ns, cases[i]), GB.real_auth_blocks(ns, all_specs[i]), keys[i])
+                return f.to_binary(GB.write_encryptors(ns, all_specs[i]))
+            return run
+
+        res, y = yieldrun.run_concurrently([body(i) for i in range(nthreads)], codes, sleep=0.0003, max_yields=6000)
+        total += y
+        ctx.ev(nthreads)
+        ctx.bin("files_written_by_concurrent_threads")
+        ctx.distinct("threads", rnd, keys)
+        for i, r in enumerate(res):
+            rp = {"kind": "threads", "blocks": GB.spec_json(all_specs[i]), "key": keys[i].hex()}
+            if r is None:
+                ctx.note("thread_still_running_after_timeout(inconclusive)")
+                continue
+            if r[0] == "exc":
+                if not any(len(c.desc_bytes()) > 210 for c in cases[i].comps):
+                    ctx.violation("writer_raises_on_object_in_domain", {"exc": r[1], "concurrent": True}, rp)
+                continue
+            try:
+                blocks, pos = L.parse_bec2_header(r[1])
+                L.parse_body(r[1], pos, keys[i], True)
+                got = [GB.open_block_with_model(s_, bytes(v))[0] for s_, (t, v) in zip(all_specs[i], blocks)]
+            except Exception as e:
+                ctx.violation("blocks_of_one_file_wrap_different_keys", {"how": "written_by_concurrent_threads", "err": fmt_exc(e) if not isinstance(e, (L.LayoutError, container.FrameError, ecies.EciesError)) else str(e)}, rp)
+                continue
+            ctx.mon("all_blocks_opened_by_model")
+            if any(bytes(k_) != keys[i] for k_ in got):
+                ctx.violation("blocks_of_one_file_wrap_different_keys", {"how": "written_by_concurrent_threads", "keys": got}, rp)
+    ctx.mon("line_yields_injected", total)
+    ctx.sample({"kind": "threads", "rounds": spec["rounds"], "line_yields": total})
+
+
 def run_shard(spec, ctx):
     ns = load()
     k = spec["kind"]
+    if k == "threads":
+        run_threads(ns, ctx, spec)
+        return
     if k == "wrap":
         run_wrap(ns, ctx, spec)
     elif k == "fresh":
@@ -486,7 +541,9 @@ def run_shard(spec, ctx):
 def replay(rec, ctx):
     ns = load()
     k = rec.get("kind")
-    if k == "splice":
+    if k == "threads":
+        run_threads(ns, ctx, {"rounds": 3})
+    elif k == "splice":
         run_splice(ns, ctx, {"n": 40, "i": 0})
     elif k == "fresh":
         run_fresh(ns, ctx, {"n": 200, "ecc": 20})
